@@ -149,6 +149,11 @@ def corpus():
         "partial-value": L.add.partial(L.inc(1)),
         "task-values": [L.inc, L.add.partial(1, b=2)],
         "type-error-add": L.inc(1) + "a",
+        "rdiv-zero": 0 / L.inc(-1),
+        "all-operators": [L.inc(1) == 2, L.inc(1) != 2, L.inc(1) < 3, L.inc(1) <= 2, L.inc(1) > 2, L.inc(1) >= 2, L.inc(1) + 1,
+                          1 + L.inc(1), L.inc(1) - 1, 1 - L.inc(1), L.inc(1) * 3, 3 * L.inc(1), L.inc(1) & 0,
+                          0 & L.inc(1), L.inc(1) | 0, 0 | L.inc(1), L.mklist(2)[0], L.wrap_nt(1, 2).y, identity(L.inc)(1),
+                          L.mklist(2) == [0, 1], L.pair(1, "a") == (1, "a"), L.inc(0) == True],   # noqa: E712
         "dict-in-dataclass": L.wrap_dc(1, 2),
     }
 
@@ -207,15 +212,24 @@ def check_program(ctx, G, R, name, expr, sx, reply, seeds, tags):
              outcome=first[0], admissible=("unk" if has_unk else min(len(outs), 3)), **tags)
 
 
+OPERATORS = {"eq", "ne", "lt", "le", "gt", "ge", "add", "radd", "sub", "rsub", "mul", "rmul", "div", "rdiv", "and", "rand", "or",
+             "ror", "call", "getattr", "getitem"}
+
+
 def run(ctx):
     from props import _evalgen as G
     from props import _evalrun as R
+    from redun.expression import _lazy_operation_registry
     rng = ctx.rng
+    if set(_lazy_operation_registry) != OPERATORS:
+        ctx.mismatch("the lazy-operator registry differs from the operator table of the model (EvalCore.applyOp)",
+                     case={"registry": sorted(_lazy_operation_registry)}, model=sorted(OPERATORS),
+                     impl=sorted(_lazy_operation_registry), signature="C01-operator-registry")
     progs = []          # (name, expr, sx, tags)
     for name, e in corpus().items():
         progs.append((name, e, G.to_sx(e), {"source": "corpus"}))
     base = rng.getrandbits(48)
-    n = ctx.n(170, 1000)
+    n = ctx.n(230, 1000)
     feats = {}
     for i in range(n):
         prng = random.Random(base + i)
